@@ -205,6 +205,49 @@ pub fn snow_from_rm_oracle<const PL: usize, const DL: usize>(hs: &Hs, name: &str
     )
 }
 
+/// Ideal AEAD + free toy hash/DH, endpoint A ids (cipher objects 0,1,2) / endpoint B ids (3,4,5); both ends
+/// share the ideal functionality's log.
+pub fn snow_from_rm_ideal_a<const PL: usize, const DL: usize>(hs: &Hs, name: &str) -> HandshakeState {
+    unsafe {
+        CKEY[0] = hs.sym.k;
+    }
+    load_dh::<PL>(hs, EP_A);
+    snow_from_rm_with::<PL>(
+        hs,
+        name,
+        false,
+        Objs {
+            rng: Box::new(SRng),
+            cipher: Box::new(ICipher::<0>),
+            hasher: Box::new(SHash::<8, 0>),
+            cipher_i: Box::new(ICipher::<1>),
+            cipher_r: Box::new(ICipher::<2>),
+            s: Box::new(SDh::<PL, DL, 0>),
+            e: Box::new(SDh::<PL, DL, 1>),
+        },
+    )
+}
+pub fn snow_from_rm_ideal_b<const PL: usize, const DL: usize>(hs: &Hs, name: &str) -> HandshakeState {
+    unsafe {
+        CKEY[3] = hs.sym.k;
+    }
+    load_dh::<PL>(hs, EP_B);
+    snow_from_rm_with::<PL>(
+        hs,
+        name,
+        false,
+        Objs {
+            rng: Box::new(SRng),
+            cipher: Box::new(ICipher::<3>),
+            hasher: Box::new(SHash::<8, 1>),
+            cipher_i: Box::new(ICipher::<4>),
+            cipher_r: Box::new(ICipher::<5>),
+            s: Box::new(SDh::<PL, DL, 2>),
+            e: Box::new(SDh::<PL, DL, 3>),
+        },
+    )
+}
+
 /// Ghost-logging stubs for C06 (hybrid hash, logging cipher), endpoint A ids.
 pub fn snow_from_rm_ghost<const PL: usize, const DL: usize>(hs: &Hs, name: &str, fixed_ephemeral: bool) -> HandshakeState {
     unsafe {
